@@ -1104,6 +1104,8 @@ class Analysis:
             at = atoms_of(f)
             if not f or not at <= visible:
                 continue
+            if abs(f.get((), 0)) >= (1 << 60) and any(len(m) >= 2 for m in f):
+                continue        # artefact of a type-range bound multiplied through: useless, and such families converge one fact per iteration
             ok = True
             inst = []
             for i, p in enumerate(preds):
